@@ -198,6 +198,16 @@ M = {
   ('named class parse uses module global ctx late', 'sourcer/expressions/class_.py', "                out.RETURN(Code(f'_run({ctx}text, pos, {parse_func}, fullparse)'))", "                out.RETURN(Code(f'_run({ctx}text, pos, {parse_func}, fullparse)' if not flags.uses_context else f'_run({ctx}text, 0, {parse_func}, fullparse)'))"),
   ('revert F08 cutoff', 'sourcer/expressions/base.py', "        if len(params) <= cutoff:\n            return func\n        else:\n            _ParseFunction = Code('_ParseFunction')\n            value = _ParseFunction(func, tuple(params[cutoff:]), ())", "        if len(params) <= 3:\n            return func\n        else:\n            _ParseFunction = Code('_ParseFunction')\n            value = _ParseFunction(func, tuple(params[2:]), ())"),
  ],
+ 'C12': [
+  ('grammar.txt edited without regeneration: wrap drops leading newline skip', 'grammar.txt', "wrap(x) => Skip(Newline) >> x << Skip(Newline)", "wrap(x) => x << Skip(Newline)"),
+  ('grammar.txt: let keyword optional sign', 'grammar.txt', "    name: kw(\"let\") >> Name << wrap(\"=>\" | \"=\" | \":\")", "    name: kw(\"let\") >> Name << wrap(\"=>\" | \"=\" | \":\" | \"<-\")"),
+  ('Skip restores only when more exprs', 'sourcer/expressions/skip.py', "                if expr.can_partially_succeed():\n                    with out.ELSE():", "                if expr.can_partially_succeed() and len(self.exprs) > 1:\n                    with out.ELSE():"),
+  ('id-dependent generated names', 'sourcer/expressions/base.py', "        name = f'_parse_function_{self.program_id}'", "        name = f'_parse_function_{id(self) % 100000}'"),
+  ('Sep allow_empty False ignored', 'sourcer/expressions/sep.py', "        else:\n            with out.IF(staging):\n                out.extend(success)", "        else:\n            out.extend(success)"),
+  ('opt bool apply broken for empty', 'sourcer/expressions/opt.py', "            out += RESULT << None\n", "            out += RESULT << ''\n"),
+  ('postfix rows longest->first', 'sourcer/expressions/operator_table.py', "            postfixes=combine(postfixes),", "            postfixes=(postfixes[0] if postfixes else None),"),
+  ('dict iteration order in codegen (set of freevars unsorted)', 'sourcer/expressions/base.py', "list(sorted(self.freevars()))", "list(self.freevars())"),
+ ],
  'C03': [
   ('sep drop pop', 'sourcer/expressions/sep.py', "                    with out.IF(staging):\n                        out += staging.pop()\n", "                    pass\n"),
   ('sep require_separator empty', 'sourcer/expressions/sep.py', "Code(f'not {staging} or {saw_separator}')", "Code(f'{saw_separator}')"),
